@@ -30,3 +30,15 @@ Definition mk_hmac (O : Oracles) (alg : string) (key : list Z) : res HMac :=
   | None => Err ValueError
   end.
 
+
+(* ---- block cipher oracles ------------------------------------------------------------ *)
+(* bo_enc key block / bo_dec key block stand for Rijndael(key, 16).encrypt(block) / .decrypt(block) *)
+Record BlockOracle := mkBlockOracle {
+  bo_enc : list Z -> list Z -> list Z;
+  bo_dec : list Z -> list Z -> list Z }.
+
+(* Rijndael(key, block_size): the key schedule is part of the oracle; the constructor only checks sizes *)
+Definition mk_rijndael (key : list Z) (block_size : Z) : res (list Z) :=
+  if negb (Z.eqb block_size 16 || Z.eqb block_size 24 || Z.eqb block_size 32) then Err ValueError
+  else if negb (Z.eqb (zlen key) 16 || Z.eqb (zlen key) 24 || Z.eqb (zlen key) 32) then Err ValueError
+  else Ok key.
